@@ -309,6 +309,10 @@ class Interp:
     async def op_TSET(self, act, pc, x, v):
         await self.ctx.objs[x].set(val(v))
 
+    async def op_BOOL(self, act, pc, e):
+        """the condition is built, used in a boolean context and dropped (never waited for)"""
+        return bool(self.cond(e))
+
     async def op_TADD(self, act, pc, x, k):
         await (self.ctx.objs[x] + k)
 
@@ -328,8 +332,19 @@ class Interp:
             ctx.rec('lock-gone', act, pc, l)
 
     # -- streams ---------------------------------------------------------------------------------
-    async def op_PUT(self, act, pc, q, item):
+    async def op_PUT(self, act, pc, q, item, slot=None):
+        if slot is not None:        # the put object was made earlier (PUTPREP); the put is performed now
+            return await self.prepared.pop(slot)
         await self.ctx.objs[q].put(item)
+
+    async def op_PUTPREP(self, act, pc, q, item, slot):
+        """make the awaitable of a put without performing it: `p = stream.put(item)`"""
+        aw = self.ctx.objs[q].put(item)
+        if not hasattr(self, 'prepared'):
+            self.prepared = {}
+        self.prepared[slot] = aw
+        if hasattr(aw, 'close'):
+            self.coros.append(aw)
 
     async def op_GET(self, act, pc, q):
         return await self.ctx.objs[q]
